@@ -862,19 +862,32 @@ theorem vgRecordName_id (n : Name) (h : n.length ≤ 65535) : vgRecordName n = n
   unfold vgRecordName
   rw [Nat.mod_eq_of_lt (by omega), List.take_length]
 
-/-- **Vgroup-backed names (`Vsetname`, `Vsetclass`, `GRcreate`) are accepted iff they fit the 16-bit length field
+/-- **Vgroup names and classes (`Vsetname`, `Vsetclass`) are accepted iff they fit the 16-bit length field
     of the vgroup record** … -/
-theorem vgname_accept_iff (a : NameApi) (ha : a = .vgname ∨ a = .vgclass ∨ a = .grname) (n : Name) :
+theorem vgname_accept_iff (a : NameApi) (ha : a = .vgname ∨ a = .vgclass) (n : Name) :
     (nameStored a n).isSome = true ↔ n.length ≤ 65535 := by
-  rcases ha with rfl | rfl | rfl <;>
+  rcases ha with rfl | rfl <;>
     (simp only [nameStored, (consts2).2.2.2.2.2.2.2.2.1]; split <;> simp <;> omega)
+
+/-- **image names (`GRcreate`) are accepted iff `GRgetiminfo` can hand them back in a `char[H4_MAX_GR_NAME]`**
+    (since the repair of finding `gr-name-unbounded`; before, names up to 65535 characters were accepted and every
+    reader with the documented buffer overflowed) -/
+theorem grname_accept_iff (n : Name) : (nameStored .grname n).isSome = true ↔ n.length ≤ 255 := by
+  simp only [nameStored, (consts2).2.2.2.2.2.2.2.2.2.2.2.2]; split <;> simp <;> omega
+
+/-- an accepted image name and its terminator fit the documented buffer -/
+theorem grname_fits_buffer (n s : Name) (h : nameStored .grname n = some s) : s = n ∧ (copyTrunc n.length n).length ≤ H4.Gen.Limits.H4_MAX_GR_NAME := by
+  simp only [nameStored, (consts2).2.2.2.2.2.2.2.2.2.2.2.2] at h ⊢
+  split at h
+  · cases h
+  · rename_i hh; simp only [Option.some.injEq] at h; subst h; simp [copyTrunc]; omega
 
 /-- … **and every accepted one survives close and reopen unchanged** (before the repair the hypothesis
     `n.length < 65536` was needed: longer names were accepted and came back modulo 65536) -/
 theorem vgname_roundtrip (a : NameApi) (ha : a = .vgname ∨ a = .vgclass ∨ a = .grname) (n : Name) :
     nameReopened a n = nameStored a n := by
   rcases ha with rfl | rfl | rfl <;>
-    (simp only [nameReopened, nameStored, (consts2).2.2.2.2.2.2.2.2.1]
+    (simp only [nameReopened, nameStored, (consts2).2.2.2.2.2.2.2.2.1, (consts2).2.2.2.2.2.2.2.2.2.2.2.2]
      split
      · rfl
      · rename_i h; simp only [Option.map_some, Option.some.injEq]; exact vgRecordName_id n (by omega))
@@ -894,7 +907,8 @@ theorem stored_length_le (a : NameApi) (n s : Name) (h : nameStored a n = some s
     | .vsname | .vsclass => s.length ≤ VSNAMELENMAX ∧ (copyTrunc VSNAMELENMAX n).length ≤ H4.Gen.Limits.SIZEOF_VSNAME
     | .field => s.length ≤ FIELDNAMELENMAX ∧ (copyTrunc FIELDNAMELENMAX n).length ≤ FIELDNAMELENMAX + 1
     | .sdname | .dimname | .attrname => s.length ≤ H4_MAX_NC_NAME
-    | .vgname | .vgclass | .grname => s = n ∧ n.length ≤ H4.Gen.Limits.UINT16_MAX := by
+    | .vgname | .vgclass => s = n ∧ n.length ≤ H4.Gen.Limits.UINT16_MAX
+    | .grname => s = n ∧ n.length < H4.Gen.Limits.H4_MAX_GR_NAME := by
   cases a <;> simp only [nameStored, Option.some.injEq] at h
   case vsname => subst h; simp [copyTrunc, (consts2).2.2.2.2.1, (consts2).2.2.2.2.2.2.2.2.2.1]; omega
   case vsclass => subst h; simp [copyTrunc, (consts2).2.2.2.2.1, (consts2).2.2.2.2.2.2.2.2.2.1]; omega
@@ -905,6 +919,7 @@ theorem stored_length_le (a : NameApi) (n s : Name) (h : nameStored a n = some s
     · rename_i hh; simp only [Option.some.injEq] at h; subst h; simp only
       have h64 := (consts2).2.2.2.2.1
       have h256 := (consts2).2.2.2.2.2.2.1
+      have hgr := (consts2).2.2.2.2.2.2.2.2.2.2.2.2
       first | omega | exact ⟨trivial, by omega⟩ | exact ⟨rfl, by omega⟩
 
 /-- SD names: accepted iff at most `H4_MAX_NC_NAME` characters -/
@@ -933,14 +948,14 @@ theorem vgRecordName_length (n : Name) : (vgRecordName n).length = n.length % 65
 example : (vgRecordName (List.replicate 70000 97)).length = 4464 := by
   rw [vgRecordName_length, List.length_replicate]
 
-example : nameStored .vgname (List.replicate 65536 97) = none ∧ (nameStored .grname (List.replicate 65535 97)).isSome = true := by
+example : nameStored .vgname (List.replicate 65536 97) = none ∧ (nameStored .grname (List.replicate 255 97)).isSome = true := by
   constructor
   · have h := vgname_accept_iff .vgname (Or.inl rfl) (List.replicate 65536 97)
     rw [List.length_replicate] at h
     cases hs : nameStored .vgname (List.replicate 65536 97) with
     | none => rfl
     | some x => rw [hs] at h; have := h.mp rfl; omega
-  · rw [vgname_accept_iff .grname (Or.inr (Or.inr rfl)), List.length_replicate]; omega
+  · rw [grname_accept_iff, List.length_replicate]; omega
 
 example : nameStored .sdname (List.replicate 257 97) = none ∧ (nameStored .sdname (List.replicate 256 97)).isSome = true := by
   constructor
